@@ -13,7 +13,8 @@ DESCRIPTION = {
              "serialized messages per serializer.  Oracle: only ProtocolError/InvalidUriError may be raised; an accepted message never holds an id outside "
              "0..2^53 (or bool), a URI slot value that is not a str fully matching the WAMP loose grammar for that slot, or the injected wrongly-typed value "
              "in a known option; re-marshalling an accepted message gives back the input value at the mutated slot (or omits a defaulted/ignored key) and "
-             "parse(marshal(x)) is a fixed point.  Non-trivial = input differs from a valid message in exactly one slot or bytes decode to a list; "
+             "parse(marshal(x)) is a fixed point.  Thorough tier adds an atheris (libFuzzer) target: octets -> (serializer, batched) -> unserialize; accepted messages must satisfy the same id/URI strictness and "
+             "re-marshal.  Non-trivial = input differs from a valid message in exactly one slot or bytes decode to a list; "
              "distinct by (class, slot, junk value, base digest)."),
     "assumptions": [
         "types of args/kwargs contents and unknown option keys are outside the statement (only accept-or-ProtocolError is required there)",
@@ -80,6 +81,9 @@ def plan(tier, seed):
     jobs.append({"func": "uris", "name": "uris", "args": {"seed": seed * 1000 + 50, "n": 400 if tier == "quick" else 6000}})
     for i, ser in enumerate(["json", "msgpack", "cbor", "ubjson"]):
         jobs.append({"func": "octets", "name": "octets/" + ser, "args": {"seed": seed * 1000 + 60 + i, "n": 600 if tier == "quick" else 10000, "ser": ser}})
+    if tier == "thorough":
+        for sh in range(4):
+            jobs.append({"func": "fuzz", "name": "fuzz/octets/%d" % sh, "args": {"target": "octets", "runs": 150000, "seed": seed * 1000 + 700 + sh}, "timeout": 3000})
     return jobs
 
 
@@ -413,6 +417,8 @@ def replay(col, case):
                         attr = ATTR_OF_KEY.get(k, k)
                         if attr in attrs and junk is not None and type(junk) != OPT_TYPE[k] and W.deep_eq(attrs[attr], junk):
                             raise Violation("C08|%s|%s|wrong-type-accepted" % (cname, slot), "option %s=%r retained" % (k, junk), c)
+    elif kind == "fuzz-octets":
+        _fuzz_octets_make(col)(bytes([["json", "msgpack", "cbor", "ubjson"].index(c["ser"]) | (4 if c["batched"] else 0)]) + c["data"])
     elif kind == "octets":
         from checks.c03_wamp_roundtrip import make_serializer
         allowed = allowed_exc()
@@ -423,3 +429,64 @@ def replay(col, case):
         except BaseException as e:
             raise Violation("C08|octets|%s|%s" % (c["ser"], exc_key(e)), repr(e), c)
     col.case()
+
+
+# ---------------------------------------------------------------- coverage-guided second opinion (atheris, thorough tier)
+
+def _fuzz_octets_make(col):
+    """bytes -> (serializer, batched) from the first octet, the rest is fed to Serializer.unserialize.  Oracle: messages or ProtocolError,
+    nothing else; every accepted message satisfies the id/URI strictness rules and can be marshalled again."""
+    from checks.c03_wamp_roundtrip import make_serializer
+    allowed = allowed_exc()
+    ctx = Ctx()
+    names = ["json", "msgpack", "cbor", "ubjson"]
+    sers = {(n, b): make_serializer(n, b) for n in names for b in (False, True)}
+    base = ctx_msg_base()
+
+    def one(data):
+        if not data:
+            return
+        ser, batched = names[data[0] & 3], bool(data[0] & 4)
+        body = data[1:]
+        case = {"check": "fuzz-octets", "ser": ser, "batched": batched, "data": body}
+        try:
+            msgs = sers[(ser, batched)].unserialize(body)
+        except allowed:
+            col.case(False, cls="fuzz-octets/%s/rejected" % ser)
+            return
+        except BaseException as e:
+            raise Violation("C08|octets|%s|%s" % (ser, exc_key(e)), "%s: %r on %d bytes %r" % (type(e).__name__, e, len(body), body[:60]), case)
+        for m in msgs:
+            if not isinstance(m, base):
+                raise Violation("C08|octets|%s|non-message-returned" % ser, repr(type(m)), case)
+            cname = type(m).__name__
+            strictness(ctx, m, cname, "C08|%s|fuzz" % cname, case, None)
+            fixed_point(ctx, m, "C08|%s|fuzz" % cname, case)
+        col.case(bool(msgs), dig=[ser, batched, body], cls=["fuzz-octets/%s/accepted" % ser] + ["fuzz-octets/accepted/" + type(m).__name__ for m in msgs[:3]],
+                 sample={"ser": ser, "batched": batched, "data": body[:48]})
+    return one
+
+
+def _fuzz_octets_seeds():
+    from hypothesis import strategies as st
+    from harness import wampwire as W
+    from checks.c03_wamp_roundtrip import make_serializer
+    out = []
+    names = ["json", "msgpack", "cbor", "ubjson"]
+    S = W.message_strategies()
+    import hypothesis
+    for i, n in enumerate(names):
+        for b in (False, True):
+            ser = make_serializer(n, b)
+            for cname in sorted(S):
+                ex = hypothesis.find(S[cname], lambda x: True, settings=hypothesis.settings(database=None, max_examples=1, phases=[hypothesis.Phase.generate]))
+                out.append(bytes([i | (4 if b else 0)]) + ser.serialize(W.build(*ex))[0])
+    return out
+
+
+FUZZ = {"octets": {"make": _fuzz_octets_make, "seeds": _fuzz_octets_seeds, "imports": ["autobahn.wamp.message", "autobahn.wamp.serializer"]}}
+
+
+def fuzz(col, target, runs, seed, max_len=2048):
+    from harness import fuzzjob
+    fuzzjob.run(col, "c08_wamp_parse", target, runs, seed, max_len)
